@@ -28,6 +28,7 @@ func TestVerifServe(t *testing.T) {
 	out := map[string]srvT{}
 	mk := func(mode string, cfg []string) {
 		w := newWorld(vWorldOpts{CertCfg: cfg, WebUICfg: []string{"password"}, Ed25519: true})
+		w.pw.pw["alice.with.quite.a.long.name"] = "pw-alice.with.quite.a.long.name"
 		w.st.Config.Base.EnableLocalTOTP = true
 		if mode == "totp" {
 			w.armTOTP("alice")
